@@ -126,6 +126,10 @@ def setup():
     for d in ("pyvc", "contracts", "props", "replay"):
         compileall.compile_dir(os.path.join(ROOT, d), quiet=1)
     os.makedirs(os.path.join(ROOT, "evidence"), exist_ok=True)
+    # engine self-test: the hand-instantiated axioms of the built-in dict / list symbols against real CPython
+    r = subprocess.run([sys.executable, os.path.join(ROOT, "selftest", "spec_crosscheck.py"), "40"], capture_output=True, text=True)
+    print(r.stdout.strip().splitlines()[-1] if r.stdout.strip() else r.stderr[-300:])
+    ok = ok and r.returncode == 0
     return 0 if ok else 3
 
 
